@@ -91,12 +91,7 @@ def shapedJson : Shaped → Json
   | .withUnit v u => Json.mkObj [("value", valJson v), ("unit", jS u)]
 
 /-- macro-defined booleans read as 1 / 0 -/
-def macroFix (define : List Str) (data : List Param) : List Param :=
-  data.map (fun p => if define.contains p.name then
-      match p.value with
-      | .leaf (.b v) => { p with value := .leaf (.i (if v then 1 else 0)) }
-      | _ => p
-    else p)
+def macroFix (define : List Str) (data : List Param) : List Param := data.map (macroParam define)
 
 def case (j : Json) : Except String Json := do
   let backend ← (← field j "backend").getStr?
